@@ -15,7 +15,24 @@ const P: &str = "C11";
 const MAX_BITS: u64 = 6000;
 
 fn gen_x(rng: &mut Prng, n: u32, thorough: bool) -> (Vec<u32>, &'static str) {
-    let regime = rng.below(10);
+    let regime = rng.below(12);
+    if regime >= 10 {
+        // exact regime boundaries: 2^k, 2^k - 1, 2^k + 1 around the u64 fast path, the f64 range and n * j
+        let k = match rng.below(4) {
+            0 => *rng.pick(&[63u64, 64, 65, 127, 128, 129]),
+            1 => *rng.pick(&[1022u64, 1023, 1024, 1025, 1026, 2047, 2048]),
+            2 => (n.max(1) as u64).saturating_mul(rng.range(1, 40)).min(MAX_BITS - 2) + rng.below(3) - 1,
+            _ => rng.range(60, 1100),
+        }
+        .clamp(1, MAX_BITS - 2);
+        let p = RefNat::one().shl(k);
+        let x = match rng.below(3) {
+            0 => p,
+            1 => p.sub(&RefNat::one()).unwrap(),
+            _ => p.add_small(1),
+        };
+        return (x.0, "power_of_two_boundary");
+    }
     let max_words = if thorough { 187 } else { 120 };
     match regime {
         0 => ({ let n_ = rng.range(1, 2) as usize; rng.digits32(n_, true) }, "below_2_64"),
